@@ -123,6 +123,26 @@ pub fn bounds_namespace<S: Src, const K: usize, const B: usize, const FULL: bool
     );
 }
 
+/// `RecordsBounds::new(Included(x), Excluded(y)).clamp_to_namespace(ns)` and the clamped `from_start` / `to_end` pieces, for
+/// bound ids of ANY namespace (range end points come out of a peer's message): the scan never leaves the namespace and keeps
+/// exactly the ids of `ns` inside the original bounds.
+pub fn bounds_clamp<S: Src, const K: usize, const B: usize, const FULL: bool>(s: &mut S) {
+    let ns: [u8; 32] = id32::<S, FULL>(s);
+    let nsid = NamespaceId::from(&ns);
+    let id: RecordsIdOwned = (id32::<S, FULL>(s), id32::<S, FULL>(s), Bytes::copy_from_slice(&s.arr::<K>()));
+    let x: RecordsIdOwned = (id32::<S, FULL>(s), id32::<S, FULL>(s), Bytes::copy_from_slice(&s.arr::<B>()));
+    let y: RecordsIdOwned = (id32::<S, FULL>(s), id32::<S, FULL>(s), Bytes::copy_from_slice(&s.arr::<B>()));
+    let inside = id.0 == ns;
+    cv!(s, inside && x.0 != ns && y.0 != ns && x <= id && id < y, "bounds_clamp: both end points outside, the id inside");
+    cv!(s, !inside && x <= id && id < y, "bounds_clamp: an id of another namespace inside the unclamped bounds");
+    let got = RecordsBounds::new(Bound::Included(x.clone()), Bound::Excluded(y.clone())).clamp_to_namespace(&nsid).contains(&id);
+    ck!(s, got == (inside && x <= id && id < y), "the clamped range [x, y) contains exactly the ids of the namespace that lie in [x, y), whatever namespaces x and y name");
+    let got = RecordsBounds::from_start(&nsid, Bound::Excluded(y.clone())).clamp_to_namespace(&nsid).contains(&id);
+    ck!(s, got == (inside && id < y), "the clamped from_start(ns, Excluded(y)) contains exactly the ids of ns that sort before y, whatever namespace y names");
+    let got = RecordsBounds::to_end(&nsid, Bound::Included(x.clone())).clamp_to_namespace(&nsid).contains(&id);
+    ck!(s, got == (inside && id >= x), "the clamped to_end(ns, Included(x)) contains exactly the ids of ns that sort at or after x, whatever namespace x names");
+}
+
 /// `ByKeyBounds::new(ns, filter)` / `ByKeyBounds::namespace(ns)` over the (ns, key, author) index.
 pub fn bounds_bykey<S: Src, const P: usize, const K: usize, const FULL: bool>(s: &mut S) {
     let ns: [u8; 32] = id32::<S, FULL>(s);
